@@ -155,7 +155,7 @@ def unusual_failures(rep, rnd, stats):
                                   dict(case, nodes=nodes, traced=repr(run["res"]["exc"]), untraced=repr(plain["exc"])))
 
 
-def transport_failures(rep, rnd, stats):
+def transport_failures(rep, rnd, stats, shape=None):
     """The run fails *between* nodes: publishing node k's output raises (a remote transport that drops the connection).  Every
     node that started has exactly one SER — it succeeded — and the run ends with one error pipeline_end and the original exception."""
     pipegen.setup()
@@ -183,6 +183,14 @@ def transport_failures(rep, rnd, stats):
             got = observed_events(run["records"], ids) if ids else [str(r.get("record_type")) for r in run["records"]]
             want = ["start"] + [f"ser:{i}:succeeded" for i in range(k + 1)] + ["end:error"]
             case = {"fault": "transport-publish-fails", "after_node": k, "detail": detail, "output": "file" if to_file else "directory", "nodes": nodes}
+            # the same failure in the Lean model, with the shape and the placement of the publish call read off the code
+            if shape is not None:
+                try:
+                    a = core.Driver().run([{"m": "c06.publishFault", "id": 0, "shape": shape, "publishOutside": tracegen.PUBLISH_OUTSIDE, "k": k, "cls": "exception"}])[0]
+                    if "ok" in a and ids and a["ok"]["events"] != got:
+                        rep.add_broken(f"correspondence C06: publishing node {k}'s output raises — model {a['ok']['events']}, real {got}")
+                except Exception as exc:  # noqa: BLE001
+                    rep.add_broken(f"correspondence C06: model driver unavailable ({exc!r})")
             if ids and got != want:
                 rep.add_violation("trace-not-wellformed:transport-publish-fails",
                                   f"publishing the output of node {k} raises: record sequence {got}, documented {want}", dict(case, observed=got, documented=want))
@@ -240,7 +248,8 @@ def run(tier: str) -> int:
                     samples.append(dict(case, nodes=[x["processor"] for x in nodes], events=got))
     exotic_runs(rep, rnd, stats, tier)
     unusual_failures(rep, rnd, stats)
-    transport_failures(rep, rnd, stats)
+    transport_failures(rep, rnd, stats, shape)
+    rep.coverage["publish_outside"] = tracegen.PUBLISH_OUTSIDE
     if shape is not None:
         try:
             ans = core.Driver().run(reqs)
